@@ -740,8 +740,11 @@ def rule_r4(ctx) -> List[R.Inst]:
             step = [n for n in ast.walk(lp) if isinstance(n, ast.AugAssign) and isinstance(n.op, ast.Add) and
                     isinstance(n.value, ast.Call) and call_name(n.value) == "offset"]
             done = True
-            if len(diff) == 1 and len(step) == 1 and unparse(step[0].value.func.value) == unparse(diff[0].targets[0]) and \
-                    unparse(step[0].value.args[0]) == parent:
+            inline_diff = len(step) == 1 and not diff and isinstance(step[0].value.func, ast.Attribute) and isinstance(step[0].value.func.value, ast.BinOp) and \
+                isinstance(step[0].value.func.value.op, ast.Sub) and unparse(step[0].value.func.value.left) == f"{child}.snap" and \
+                unparse(step[0].value.func.value.right) == f"{parent}.snap"
+            if len(step) == 1 and step[0].value.args and unparse(step[0].value.args[0]) == parent and \
+                    (inline_diff or (len(diff) == 1 and unparse(step[0].value.func.value) == unparse(diff[0].targets[0]))):
                 insts.append(R.ok(rid, "from_bpm_changes_snap:segment", ff, step[0].lineno,
                                   idiom="offset += (child.snap - parent.snap).offset(parent): each segment at its own tempo"))
                 app = [c for c in ast.walk(lp) if isinstance(c, ast.Call) and call_name(c) == "BpmChangeOffset"]
